@@ -2,7 +2,8 @@
 # confirm-mutant.sh <mutdir> <worktree> <go test -run regex> [pkg]: independently confirms a seeded change:
 # patch applies to a clean checkout, builds, the pinned suite passes with it, the demo fails with it and passes without it.
 set -u
-. /verif/scripts/env.sh
+ROOT=$(cd "$(dirname "$0")/.." && pwd)
+. "$ROOT/scripts/env.sh"
 mut=$1; wt=$2; re=$3; pkg=${4:-./pkg/api/}
 cd "$wt" || exit 2
 git checkout -q -- . ; git clean -fdq
